@@ -144,6 +144,7 @@ class Sched:
         self.stopped = False
         # deterministic hang budget (jumps since last yield), see sim
         self.jumps = 0
+        self.max_jumps = 0
         # line-level pre-emption: tuple of gaps to draw from, or None (off)
         self.line_gap = cfg.get('line_gap')
         self.line_countdown = self.line_gap[0] if self.line_gap else 0
@@ -315,6 +316,8 @@ class Sched:
 
     def _after_resume(self, me):
         self.last_progress = _rtime.monotonic()
+        if self.jumps > self.max_jumps:
+            self.max_jumps = self.jumps
         self.jumps = 0
         if me.killed:
             raise ActorKilled()
